@@ -392,7 +392,8 @@ def run(ctx):
         # decode_all_to_vec
         v = ctx.hir(FD + "::decode_all_to_vec")
         vix = hq.Index(v)
-        m = [mm for mm in hq.find(v["body"], lambda x: x.get("k") == "Match" and x.get("src") == "match")]
+        m = [mm for mm in hq.find(v["body"], lambda x: x.get("k") == "Match" and x.get("src") == "match" and
+                                  (H.callee(hq.peel(x["scrut"])) or "").endswith("FrameDecoder::decode_all"))]
         ok = len(m) == 1 and len(m[0]["arms"]) == 2
         if ok:
             okarm = [a for a in m[0]["arms"] if H.show_pat(a["pat"]).startswith("Result::Ok(")][0]
